@@ -40,7 +40,7 @@ def r15_1(ck, F):
     if baus:
         cb = baus[0][3]
         sel = [a for a in b.awaits() if "PollFn" in (a.get("fut_fn") or "") or "PollFn" in a.get("fut_ty", "")]
-        ce = [(switch_expr(b, s), switch_meaning(b, s, v)) for s, tb, v in controlling_edges(b, cb)]
+        ce = conds(b, cb)
         ok = any(x[0] == "discr" and m == "Ok" and "poll_fn" in mir.show(x) for x, m in ce) and \
             all(b.dominates(a["poll_bb"], cb) for a in sel)
         ck.expect(ok, "send_impl#borrow-after-changed", "borrowed after this iteration's changed() returned Ok",
